@@ -72,6 +72,9 @@ class P(vlib.Prop):
             "Server `middlewares:` 35% of the full-bytes cases configure one or two ServerConfig.Middlewares handlers that look at "
             "header, declared length and the whole body and put it back; every handler behind the decompressor is recorded in "
             "the order it ran and compared with the model's server_views. "
+            "Body readers: 38% of the non-empty request bodies are delivered by a reader with another legal Read pattern (last data "
+            "together with io.EOF, one byte per call, short reads with zero-byte reads in between, fixed chunks with EOF on the "
+            "last) — an independent input of the client model. "
             "Replay: in EVERY case a tap below the package's round trippers records GetBody of the outgoing request before and "
             "after the send (what a transport-level replay would send; compared with the model's w_rewind); ~45% of the "
             "rewindable requests run over TCP with a fault: warm-up on a keep-alive connection, then the server receives the "
